@@ -199,6 +199,8 @@ def _in_code_under_test(tb, src: str) -> bool:
     """True iff the innermost frame that is neither stdlib/site-packages is in the code under test."""
     frames = traceback.extract_tb(tb)
     for fr in reversed(frames):
+        if fr.filename.startswith('<'):
+            continue
         fn = os.path.abspath(fr.filename)
         if fn.startswith(src + os.sep):
             return True
